@@ -316,6 +316,10 @@ def e_key(ctx):
         # numeric keys around zero: negatives, 0 and positives together
         t = d(st.sampled_from(['-NR', '(NR % 3) - 1', '1 - NR', 'NR - 2', '(NR % 2) * (2 - NR)']))
         return mk(t, t, 'int')
+    if not ctx.js and d(st.integers(0, 2)) == 1:
+        # one key expression whose values are tuples of different lengths (version-number style keys)
+        f = sfield(ctx)
+        return mk(d(st.sampled_from(['tuple(%s)', 'tuple(%s.split(" "))', 'tuple(ord(c) for c in %s)', '(len(%s),) + tuple(%s)'])).replace('%s', f['py']), None, 'tuple')
     return e_str(ctx, 1)
 
 
